@@ -87,6 +87,8 @@ type admDriver struct {
 	nameOf map[string]string           // any address string (acc bech32 / cons bech32 / hex) -> model id
 	out    []string // validators whose operator opted out (driver-side record of accepted ValOut calls)
 	ep     bool     // the dogfood epoch ended in the BeginBlock of the current block
+	lastSt interface{}
+	lastDg interface{}
 	hdrT   time.Time
 	h      int64
 	nfeed  int
@@ -107,9 +109,12 @@ func runOracleAdm(args []string) int {
 	behaviours := ReadBehaviours(*in)
 	for bi, b := range behaviours {
 		d := newAdmDriver(ac)
-		tw.Emit(map[string]interface{}{"ev": "reset", "b": bi, "cfg": d.cfgJSON(), "st": d.project(), "dg": d.digests()})
+		d.lastSt, d.lastDg = d.project(), d.digests()
+		tw.Emit(map[string]interface{}{"ev": "reset", "b": bi, "halt": false, "cfg": d.cfgJSON(), "st": d.lastSt, "dg": d.lastDg})
 		for _, e := range b {
-			d.exec(e, tw)
+			if halted := d.exec(e, tw); halted {
+				break // the chain is dead: nothing after a block-phase panic is meaningful
+			}
 		}
 	}
 	fmt.Printf("oracleadm: behaviours=%d events=%d\n", len(behaviours), tw.n)
@@ -299,8 +304,8 @@ func classify(code uint32, log string) string {
 	return "ante"
 }
 
-func (d *admDriver) exec(e BEvent, tw *TraceWriter) {
-	line := map[string]interface{}{"ev": e.Ev}
+func (d *admDriver) exec(e BEvent, tw *TraceWriter) (halted bool) {
+	line := map[string]interface{}{"ev": e.Ev, "halt": false}
 	switch e.Ev {
 	case "Tx":
 		var a AdmTx
@@ -387,9 +392,22 @@ func (d *admDriver) exec(e BEvent, tw *TraceWriter) {
 	if os.Getenv("ADM_RAWMEM") != "" {
 		line["rawmem"] = oraclekeeper.VerifAdmDumpMem()
 	}
-	line["st"] = d.project()
-	line["dg"] = d.digests()
+	halted = line["halt"] == true
+	func() {
+		defer func() {
+			if r := recover(); r != nil { // projection impossible after a halt
+				line["st"], line["dg"] = d.lastSt, d.lastDg
+			}
+		}()
+		if halted {
+			panic("halted")
+		}
+		line["st"] = d.project()
+		line["dg"] = d.digests()
+		d.lastSt, d.lastDg = line["st"], line["dg"]
+	}()
 	tw.Emit(line)
+	return halted
 }
 
 // ---------------------------------------------------------------------------------------------
